@@ -311,6 +311,7 @@ type Pipe struct {
 	byLib   bool
 	blocked bool
 	quiet   bool
+	linger  bool
 }
 
 // NewPipe creates a pipe. It is not connected to anything until it is
@@ -330,6 +331,10 @@ func (p *Pipe) setOwner(o string) { p.mu.Lock(); p.owner = o; p.mu.Unlock() }
 
 // SetMode selects how sends complete.
 func (p *Pipe) SetMode(m SendMode) { p.mu.Lock(); p.mode = m; p.mu.Unlock() }
+
+// SetLinger makes a gated Send that is in flight when the connection is closed complete all the same once it is
+// released (bytes the kernel had already taken: the write returns success although the connection is going away).
+func (p *Pipe) SetLinger(b bool) { p.mu.Lock(); p.linger = b; p.mu.Unlock() }
 
 // SetQuiet suppresses xs/xd/rv events for this pipe (bulk transfer tests).
 func (p *Pipe) SetQuiet(q bool) { p.mu.Lock(); p.quiet = q; p.mu.Unlock() }
@@ -363,6 +368,7 @@ func (p *Pipe) Send(m *mangos.Message) error {
 	mode := p.mode
 	peer := p.peer
 	quiet := p.quiet
+	linger := p.linger
 	p.mu.Unlock()
 	if !quiet {
 		kv := append([]interface{}{"o", p.Name, "n", k, "hl", len(m.Header), "len", len(b)}, p.extra("xs", b)...)
@@ -384,13 +390,28 @@ func (p *Pipe) Send(m *mangos.Message) error {
 		p.blocked = true
 		p.mu.Unlock()
 		defer func() { p.mu.Lock(); p.blocked = false; p.mu.Unlock() }()
+		closedQ := (<-chan struct{})(p.closed)
+		if linger {
+			closedQ = nil
+		}
 		select {
 		case err := <-p.gate:
 			if err != nil {
 				return fail(err)
 			}
-		case <-p.closed:
+		case <-closedQ:
 			return fail(mangos.ErrClosed)
+		}
+		if linger && peer == nil {
+			// the write had been taken before the connection went away
+			p.mu.Lock()
+			p.sent = append(p.sent, b)
+			p.mu.Unlock()
+			if !quiet {
+				p.net.Rec.Emit("xd", "o", p.Name, "n", k)
+			}
+			m.Free()
+			return nil
 		}
 	}
 	if peer != nil {
